@@ -180,6 +180,13 @@ def skeletons(tier):
 def obligations(tier, seed):
     obs = []
     L = 2 if tier == "quick" else 4
+    # scanner lemmas that justify substituting token values (E-LEX); the class hypotheses are exactly the hole classes used below
+    for q, qn in ((34, "dq"), (39, "sq")):
+        obs.append(Ob(name=f"C01-LEX/quoted.{qn}", kind="z3", z3_call=("engine.lexmodel", "lx_class_quoted", {"ctx": "value", "q": q, "L": 12 if tier == "quick" else 16}), timeout=900,
+                      meta={"desc": f"every member of the string hole class written in {chr(q)} quotes scans to one string token with that lexeme", "functions": ["lark scanner (value state)"]}))
+    # without the "does not end in a backslash" hypothesis the lemma fails: the listed known finding (content ending in \ swallows the following text)
+    obs.append(Ob(name="C01-LEX/quoted.backslash.known", kind="z3", z3_call=("engine.lexmodel", "lx_class_quoted", {"ctx": "value", "q": 34, "L": 12, "hyp": ["nothex"]}), timeout=900,
+                  expect_cex=True, meta={"desc": "quoted string whose content ends in a backslash: the closing quote is read as an escaped quote", "functions": ["DOUBLE_QUOTED_STRING"]}))
     for name, (text, holes) in skeletons(tier).items():
         for h in holes:
             if h.kind != "name":
